@@ -2,6 +2,7 @@ import MockeryModel.Sem.Testify
 import MockeryModel.Generated.TestifyFacts
 import MockeryModel.Sem.TestifyText
 import MockeryLemmas.Testify
+import MockeryLemmas.TestifyExec
 /-!
 # C03 — testify-style mocks route arguments, callbacks and return values faithfully
 
@@ -200,6 +201,100 @@ theorem cleanup_reports_unused_repetitions (mk : Mock) (e : Expectation) (he : e
   unfold assertExpectations
   rw [List.all_eq_false]
   exact ⟨e, he, by simp [expectationMet, hr]⟩
+
+/-! ### the emitted statements refine the model
+
+`Gen/TestifyEmit.emitBody` is the statement list the template emits for a method of a given shape (its
+Go text is compared token for token with the generator's output on every case of the harness);
+`Sem/TestifyExec` gives the statements their meaning over the model of testify.  The theorems above are
+about `invoke`; these say that running the emitted statements *is* `invoke`, for every method shape. -/
+
+open Mockery.Sem.TestifyExec Mockery.Gen.TestifyEmit in
+/-- **the emitted method body refines the model**: for every method shape (any parameters, variadic or not,
+any number of results of any kind, unroll-variadic on or off), every state of the mock whose return
+arguments were registered through the typed wrappers, and every call, interpreting the emitted statements
+gives exactly the events, results and new state of `invoke` -/
+theorem emitted_method_refines_model (w : World) (sh : Shape) (mk : Mock) (a : CallArgs)
+    (hl : a.ords.length = sh.params.length)
+    (hs : sh.isVariadic = true → a.varSlice = w.mkSlice a.varElems)
+    (hok : ∀ e ∈ mk.expected, RetsOK w sh e.rets) :
+    invokeEmitted w sh mk a = invoke sh.unroll (sigOf sh) mk a :=
+  invokeEmitted_eq_invoke w sh mk a hl hs hok
+
+open Mockery.Sem.TestifyExec Mockery.Gen.TestifyEmit in
+/-- **the typed `Run` wrapper hands the callback the call's arguments**: applied to the `mock.Arguments` the
+emitted method passes to `Called` (in each of the three packing modes) the closure registered by `Run`
+rebuilds exactly the typed parameters, the variadic one included -/
+theorem run_wrapper_receives_call_arguments (w : World) (sh : Shape) (a : CallArgs)
+    (hl : a.ords.length = sh.params.length) (hs : sh.isVariadic = true → a.varSlice = w.mkSlice a.varElems) :
+    unpackRun w sh (calledArgs sh.unroll (sigOf sh) a) = some (typedArgs (sigOf sh) a) :=
+  unpackRun_calledArgs w sh a hl hs
+
+open Mockery.Sem.TestifyExec Mockery.Gen.TestifyEmit in
+/-- the hypothesis of `emitted_method_refines_model` is what the typed wrappers establish: whatever style an
+expectation is registered in, its return arguments are well-formed for the method – given that the values
+passed to the typed `Return` are values of the result types (a nil interface value only at a nillable result,
+where it is the zero value) and `RunAndReturn`'s function returns one value per result -/
+theorem typed_wrappers_register_wellformed_returns (w : World) (sh : Shape) (mk : Mock) (id : Nat)
+    (ords vars : List Matcher) (style : Style) (times : Nat)
+    (hold : ∀ e ∈ mk.expected, RetsOK w sh e.rets)
+    (hstyle : match style with
+      | .ret vs | .runRet vs => ∀ (i : Nat) (v : Val), vs[i]? = some v → w.isNilIface v = true → resultKind sh i ≠ .plain ∧ v = w.zero i
+      | .runAndReturn vs => vs.length = sh.results.length
+      | .providers rs => ∀ (i : Nat), match (rs[i]? : Option RetVal) with
+          | some (.wholeFunc _) => False
+          | some (.val v) => w.isNilIface v = true → resultKind sh i ≠ .plain ∧ v = w.zero i
+          | _ => True
+      | .none => True) :
+    ∀ e ∈ (expect (sigOf sh) mk id ords vars style times).expected, RetsOK w sh e.rets := by
+  intro e he
+  simp only [expect, List.mem_append, List.mem_singleton] at he
+  rcases he with he | he
+  · exact hold e he
+  · subst he
+    cases style with
+    | ret vs =>
+      refine Or.inr (Or.inr (fun i => ?_))
+      simp only [List.getElem?_map]
+      cases hv : vs[i]? with
+      | none => simp
+      | some v => simpa using hstyle i v hv
+    | runRet vs =>
+      refine Or.inr (Or.inr (fun i => ?_))
+      simp only [List.getElem?_map]
+      cases hv : vs[i]? with
+      | none => simp
+      | some v => simpa using hstyle i v hv
+    | runAndReturn vs =>
+      by_cases h0 : (sigOf sh).nresults = 0
+      · exact Or.inl (by simp [h0])
+      · exact Or.inr (Or.inl ⟨vs, by simp [h0], hstyle⟩)
+    | providers rs => exact Or.inr (Or.inr hstyle)
+    | none => exact Or.inl rfl
+
+open Mockery.Sem.TestifyExec Mockery.Gen.TestifyEmit in
+/-- non-vacuity of `emitted_method_refines_model`: a variadic method with two results, unroll-variadic off, an
+expectation registered with `Return(1, nil)` – the hypotheses hold and the emitted body returns the values -/
+example :
+    let w : World := ⟨fun _ => "12#2", fun v => v == "7#0", fun i => if i = 1 then "7#0" else "0#0"⟩
+    let sh : Shape := {
+      structName := "MockS", tconstraint := "", tinst := "", testify := "mock", name := "Send",
+      params := [("a0", "int")], variadic := some ("rest", "string"), results := [("int", .plain), ("error", .error)],
+      unroll := false, retName := "ret" }
+    let a : CallArgs := ⟨["1#1"], "12#2", ["1#1"]⟩
+    let mk := expect (sigOf sh) ⟨[], []⟩ 0 [.exact "1#1"] [.anything] (.ret ["0#1", "7#0"]) 1
+    (a.ords.length = sh.params.length) ∧ (sh.isVariadic = true → a.varSlice = w.mkSlice a.varElems) ∧
+    (∀ e ∈ mk.expected, RetsOK w sh e.rets) ∧
+    (invoke sh.unroll (sigOf sh) mk a).2 = [.returned ["0#1", "7#0"]] := by
+  refine ⟨rfl, fun _ => rfl, ?_, by decide⟩
+  intro e he
+  simp only [expect, List.nil_append, List.mem_singleton] at he
+  subst he
+  refine Or.inr (Or.inr (fun i => ?_))
+  match i with
+  | 0 => simp
+  | 1 => simp [resultKind]
+  | n + 2 => simp
 
 /-- non-vacuity: a variadic method, unroll-variadic off, Run + Return, then a call nothing was registered for -/
 example :
